@@ -66,6 +66,41 @@ class ModesConsumer(Consumer):
         return r
 
 
+DOC_SHARDS = [
+    ('default', dict(macros=['text', 'ensuremath'], envs=['equation'], specials=[], argless=[])),
+    ('default', dict(macros=['textbf', 'frac'], envs=['align'], specials=[], argless=['alpha'])),
+    ('k', dict(macros=['t', 'q', 'A'], envs=['q'], specials=[], argless=['z'])),
+    ('k', dict(macros=['S', 'm'], envs=['e'], specials=[], argless=['X'])),
+]
+DOC_FEATURES = ['math', 'display', 'group', 'space', 'textinmath']
+
+
+def doc_jobs(maxacts):
+    from . import docwriter
+    jobs = []
+    for cname, sh in DOC_SHARDS:
+        for j in docwriter.jobs(cname, [sh], maxacts, DOC_FEATURES, False, True):
+            j['main'] = 'MC_DocModes'
+            j['mc'] = j['mc'].replace('MODULE MC_DocCheck', 'MODULE MC_DocModes').replace('EXTENDS DocCheck', 'EXTENDS DocModes').replace(
+                '====', 'ModesCfgDef == %s\n====' % pc.modes_cfg_tla(cname))
+            j['cfg'] = j['cfg'].replace('INVARIANT Emit\n', 'INVARIANT EmitModes\nINVARIANT WrittenModesOK\n').replace(
+                'SPECIFICATION Spec', '  ModesCfg <- ModesCfgDef\nSPECIFICATION Spec')
+            j['payload'] = dict(ctx=cname, st_kw={}, sample_every=97)
+            jobs.append(j)
+    return jobs
+
+
+def run_documents(ctx):
+    from .c01 import validate
+    quick = ctx.tier == 'quick'
+    n = 5 if quick else 6
+    m = common.run_shards(ctx, ('harness.c10', 'ModesConsumer'), doc_jobs(n), what='DocModes: written documents <= %d actions (ModesOK)' % n)
+    ctx.add_merged(m)
+    ctx.log('written documents with text-in-math / math-in-text-in-math, <= %d actions: %d documents; %s' % (
+        n, m['n'], {k: v for k, v in m['counters'].items() if ':' in k}))
+    validate(ctx, m)
+
+
 def run(ctx):
     from .c01 import validate
     quick = ctx.tier == 'quick'
@@ -98,6 +133,7 @@ def run(ctx):
         ctx.log('%s %s/%d atoms %s: %d strings; %s' % (cname, pc.kdesc(K), len(atoms), st_kw or '', m['n'],
                 {k: v for k, v in m['counters'].items() if ':' in k}))
         validate(ctx, m)
+    run_documents(ctx)
     ctx.exhaustive = True
     ctx.assumptions += ['the lists of text-like macros and math environments are frozen from the documentation in '
                         'harness/parsecommon.py']
